@@ -63,7 +63,9 @@ def clear (n : Net) (caller tok : Nat) : Net :=
 def loseTo (asks : Nat → AskRec) (y : Nat) : Nat → AskRec :=
   fun t => if (asks t).callee = y ∧ (asks t).st = .inflight then { asks t with st := .lost } else asks t
 
-def step? (n : Net) : NLabel → Option Net
+/-- the protocol with explicit switches: is the asker's edge cleared when the reply is sent; does the
+    asker-side guard clear it when the ask future ends -/
+def stepWith (atReply guard : Bool) (n : Net) : NLabel → Option Net
   | .ask a b =>
     if n.dead a = true ∨ (n.busy a).isSome then none
     else if a == b || has_path n.graph b a then
@@ -81,7 +83,7 @@ def step? (n : Net) : NLabel → Option Net
   | .reply t =>
     match (n.asks t).st with
     | .inflight =>
-      let n' := if edge_removed_at_reply then clear n (n.asks t).caller t else n
+      let n' := if atReply then clear n (n.asks t).caller t else n
       some { n' with asks := setN n'.asks t { n'.asks t with st := .answered }, ev := n'.ev ++ [.replied t] }
     | .abandoned => some { n with ev := n.ev ++ [.replied t] }    -- nobody listens; token no longer matches
     | _ => none
@@ -89,7 +91,7 @@ def step? (n : Net) : NLabel → Option Net
     match (n.asks t).st with
     | .answered | .lost =>
       let a := (n.asks t).caller
-      let n' := if guard_removes_on_drop then clear n a t else n
+      let n' := if guard then clear n a t else n
       some { n' with asks := setN n'.asks t { n'.asks t with st := .done }, busy := setN n'.busy a none,
                      ev := n'.ev ++ [.resumed t] }
     | _ => none
@@ -97,7 +99,7 @@ def step? (n : Net) : NLabel → Option Net
     match (n.asks t).st with
     | .inflight | .lost | .answered =>
       let a := (n.asks t).caller
-      let n' := if guard_removes_on_drop then clear n a t else n
+      let n' := if guard then clear n a t else n
       some { n' with asks := setN n'.asks t { n'.asks t with st := .abandoned }, busy := setN n'.busy a none,
                      ev := n'.ev ++ [.gaveUp t] }
     | _ => none
@@ -108,10 +110,13 @@ def step? (n : Net) : NLabel → Option Net
       let n1 : Net :=
         match n.busy y with
         | some t =>
-          let n' := if guard_removes_on_drop then clear n y t else n
+          let n' := if guard then clear n y t else n
           { n' with asks := setN n'.asks t { n'.asks t with st := .abandoned }, busy := setN n'.busy y none }
         | none => n
       some { n1 with dead := setN n1.dead y true, asks := loseTo n1.asks y, ev := n1.ev ++ [.died y] }
+
+/-- the protocol as the source implements it (switches read from the source on every run) -/
+def step? (n : Net) (l : NLabel) : Option Net := stepWith edge_removed_at_reply guard_removes_on_drop n l
 
 def run? (n : Net) : List NLabel → Option Net
   | [] => some n
